@@ -1,21 +1,30 @@
 (* C16 -- RIDDLE expressions are read and evaluated with the language's semantics.
    Only full-strength statements, each closed by `exact <lemma>`; the proofs are in proofs/Lexer_Proofs.v,
-   proofs/Parser_Proofs.v and proofs/Eval_Proofs.v. The language is pinned down by the printer (lang/Printer.v):
-   `show` writes tokens, `pp` writes trees with parentheses by the documented precedence.
+   proofs/Parser_Proofs.v, proofs/Parser_Stmt_Proofs.v, proofs/Parser_Decl_Proofs.v, proofs/Parser_Unit_Proofs.v and
+   proofs/Eval_Proofs.v. The language is pinned down by the printer (lang/Printer.v): `show` writes tokens, `pp` writes
+   trees with parentheses by the documented precedence, `pp_stmt`, `pp_type_decl`, `pp_unit` write statements, declarations
+   and whole compilation units.
 
    Covered by theorems:   every token form (all_tokens_read_back); every expression tree: literals, identifiers,
                           unary and n-ary operators, the seven binary operators, parentheses, casts, constructor and
                           function calls, of any size and nesting up to the implementation's limit of 1000 frames
                           (all_expressions_read_back, expression_statement_read_back); every statement tree and every
                           program made of statements (all_statements_read_back, statement_programs_read_back);
+                          every declaration: typedef, enum (string values and unions with other enums), class with
+                          supertypes, fields (`A a, b = e;` lists with initialisers), constructors with initialisation
+                          lists, void and typed methods, predicates with supertypes, nested types to any depth
+                          (all_declarations_read_back); every compilation unit mixing type declarations, methods,
+                          predicates and statements (program_read_back);
                           evaluation of every expression over literals, variables, unary / n-ary / binary operators
                           and casts (evaluation_exact, ...).
-   Covered by the tie only (differential against the real parser, tools/checks/c16.py): declarations (typedef, enum,
-                          class, method, predicate) and units containing them -- see program_read_back_partial. *)
+   The printer writes the four lists of a unit (and the five lists of a class body) in a fixed order; the order in which
+   a source file interleaves them is not part of the tree, so it is covered by the tie (differential against the real
+   parser on all example programs, generated units and mutated token streams, tools/checks/c16.py), not by a theorem. *)
 From Coq Require Import List Ascii String ZArith NArith QArith Bool.
 From ORatio Require Import gen.Gen_arith base.RatSpec base.Lin.
 From ORatio Require Import lang.Token lang.Lexer lang.Ast lang.Parser lang.Printer lang.Eval.
-From ORatio Require Import proofs.Lexer_Proofs proofs.Parser_Total_Proofs proofs.Parser_Proofs proofs.Parser_Stmt_Proofs proofs.Eval_Proofs.
+From ORatio Require Import proofs.Lexer_Proofs proofs.Parser_Total_Proofs proofs.Parser_Proofs proofs.Parser_Stmt_Proofs proofs.Parser_Decl_Proofs
+  proofs.Parser_Unit_Proofs proofs.Eval_Proofs.
 Import ListNotations.
 Local Open Scope nat_scope.
 
@@ -53,17 +62,23 @@ Theorem statement_programs_read_back : forall ss, Forall (fun s => wf_top s /\ s
 Proof. exact parse_statements. Qed.
 Print Assumptions statement_programs_read_back.
 
-(* FULL STATEMENT (not proved):  forall u, wf_unit u -> depth u <= MAX_DEPTH -> parse (pp_unit u) = Ok u []
-   for every compilation unit, i.e. including DECLARATIONS (typedef, enum, class with fields / constructors / methods /
-   predicates / nested types, methods, predicates). Proved above for the units made of statements (whose bodies of rules and
-   methods are exactly the statement lists of all_statements_read_back). Declarations are modelled (lang/Parser.v,
-   lang/Printer.v) and tied to the implementation by the tree-by-tree differential on all example programs and on
-   generated units (the model itself reads back every generated unit), but their round trip is not a theorem. The gap: the
-   analogue of stmt_roundtrip for type_decl / method_decl / pred_decl and of units_stmts for the four lists of a unit. *)
-Theorem program_read_back_partial : forall ss, Forall (fun s => wf_top s /\ sneed s <= MAX_DEPTH) ss ->
-  parse (pp_unit (CU [] [] [] ss)) = Ok (CU [] [] [] ss) [].
-Proof. exact parse_statements. Qed.
-Print Assumptions program_read_back_partial.
+(* Declarations: reading what the printer writes for ANY type declaration -- a typedef of a primitive type, an enum with
+   string values and/or references to other enums, a class with supertypes, fields, constructors (parameters, initialisation
+   list, body), methods (void or typed), predicates (parameters, supertypes, body) and nested types to any depth within the
+   limit -- with the parser function for that kind of declaration (run_tdecl) gives back the tree, whatever follows. *)
+Theorem all_declarations_read_back : forall t, wf_tdecl t -> forall d rest, tneed t <= d ->
+  exists fuel, run_tdecl t fuel d (pp_type_decl t ++ rest) = Ok t rest.
+Proof. exact tdecl_roundtrip. Qed.
+Print Assumptions all_declarations_read_back.
+
+(* Every syntactically valid program is accepted, and is the tree it was written for: for EVERY compilation unit u --
+   type declarations, methods, predicates and statements -- that is well formed (wf_unit: qualified names, types and lists
+   of variables are not empty, an n-ary operator has at least two operands, a typedef names a primitive type, an enum has
+   an alternative, a one-disjunct disjunction has a cost, `return` occurs only inside bodies) and nests no deeper than the
+   parser's limit of 1000 frames (uneed). With all_tokens_read_back: the text `show (pp_unit u)` is read as u when its tokens are well formed. *)
+Theorem program_read_back : forall u, wf_unit u -> uneed u <= MAX_DEPTH -> parse (pp_unit u) = Ok u [].
+Proof. exact parse_unit. Qed.
+Print Assumptions program_read_back.
 
 (* Evaluation is exact: whatever an expression over literals, variables, unary, n-ary and binary operators and casts
    evaluates to MEANS what the expression denotes -- the linear expression of an arithmetic expression has, under
